@@ -1,2 +1,3 @@
+@updater.setter
 def spec(self, value):
     self.updater_ = value
